@@ -254,42 +254,68 @@ def shard(cases, n):
     return [s for s in shards if s]
 
 
+def _collect(of, results):
+    for line in open(of, errors="replace"):
+        parts = line.rstrip("\n").split(" ", 3)
+        if len(parts) < 3:
+            continue
+        key = (parts[0], int(parts[1]) if parts[1].isdigit() else parts[1])
+        results[key] = (parts[2], parts[3] if len(parts) > 3 else "")
+
+
+def _start(binary, sh, cf, of, timeout):
+    write_cases(cf, sh)
+    fo = open(of, "w")
+    pre = "ulimit -s unlimited 2>/dev/null; export OCAMLRUNPARAM=s=8M; " if binary.endswith("mzm") else ""
+    p = subprocess.Popen(["bash", "-c", pre + "exec timeout %d %s %s" % (timeout, binary, cf)],
+                         stdout=fo, stderr=subprocess.DEVNULL)
+    return p, fo
+
+
 def run_binary_on_cases(binary, cases, tag, workdir, per_shard_timeout=400, nshards=None):
-    """Run `binary casefile` on shards in parallel. Returns (dict key->(op, rest), problems)."""
+    """Run `binary casefile` on shards in parallel. Returns (dict key->(op, rest), problems).
+    A shard whose process dies (fault, abort, timeout) is not allowed to take the cases behind the failing one with
+    it: the first case without complete output is re-run on its own (only if it dies again is it reported as a
+    problem - a timeout of a whole shard on a loaded machine is not a finding), and the cases after it are re-run
+    as a new shard."""
     os.makedirs(workdir, exist_ok=True)
-    shards = shard(cases, nshards or NPROC)
-    procs = []
-    for i, sh in enumerate(shards):
-        cf = os.path.join(workdir, "%s_%d.case" % (tag, i))
-        of = os.path.join(workdir, "%s_%d.out" % (tag, i))
-        write_cases(cf, sh)
-        fo = open(of, "w")
-        pre = "ulimit -s unlimited 2>/dev/null; export OCAMLRUNPARAM=s=8M; " if binary.endswith("mzm") else ""
-        p = subprocess.Popen(["bash", "-c", pre + "exec timeout %d %s %s" % (per_shard_timeout, binary, cf)],
-                             stdout=fo, stderr=subprocess.DEVNULL)
-        procs.append((p, fo, of, sh))
     results = {}
     problems = []
-    for p, fo, of, sh in procs:
-        rc = p.wait()
-        fo.close()
-        seen_cases = set()
-        for line in open(of, errors="replace"):
-            parts = line.rstrip("\n").split(" ", 3)
-            if len(parts) < 3:
+    queue = [(sh, False) for sh in shard(cases, nshards or NPROC)]   # (cases, is_single_retry)
+    rnd = 0
+    while queue and rnd < 12:
+        procs = []
+        for i, (sh, single) in enumerate(queue):
+            cf = os.path.join(workdir, "%s_r%d_%d.case" % (tag, rnd, i) if rnd else "%s_%d.case" % (tag, i))
+            of = os.path.join(workdir, "%s_r%d_%d.out" % (tag, rnd, i) if rnd else "%s_%d.out" % (tag, i))
+            p, fo = _start(binary, sh, cf, of, per_shard_timeout)
+            procs.append((p, fo, of, sh, single))
+        queue = []
+        for p, fo, of, sh, single in procs:
+            rc = p.wait()
+            fo.close()
+            _collect(of, results)
+            if rc == 0:
                 continue
-            key = (parts[0], int(parts[1]) if parts[1].isdigit() else parts[1])
-            results[key] = (parts[2], parts[3] if len(parts) > 3 else "")
-            seen_cases.add(parts[0])
-        if rc != 0:
-            # the process died (fault, abort, timeout): the first case without complete output is the suspect
-            suspect = None
-            for cid, ops in sh:
-                nops = len(ops)
-                if (cid, nops) not in results:
-                    suspect = cid
+            idx = None
+            for j, (cid, ops) in enumerate(sh):
+                if (cid, len(ops)) not in results:
+                    idx = j
                     break
-            problems.append({"binary": os.path.basename(binary), "rc": rc, "suspect_case": suspect})
+            if idx is None:
+                continue                      # everything was printed before the process ended
+            if single or len(sh) == 1:
+                # this case, run alone, does not complete: a fault, an abort or a hang of the binary on it
+                problems.append({"binary": os.path.basename(binary), "rc": rc, "suspect_case": sh[idx][0]})
+                rest = sh[idx + 1:]
+            else:
+                queue.append(([sh[idx]], True))
+                rest = sh[idx + 1:]
+            if rest:
+                queue.append((rest, False))
+        rnd += 1
+    for sh, single in queue:                  # rounds exhausted: report what is left
+        problems.append({"binary": os.path.basename(binary), "rc": -1, "suspect_case": sh[0][0]})
     return results, problems
 
 
